@@ -658,6 +658,52 @@ def _prune_covered_misses(stmts: list, known: dict) -> bool:
     return changed
 
 
+def _densified_dict(node: ast.AST) -> bool:
+    """D = {} ; ... D[k] = v ... ; L = [D.get(i) for i in range(N)]      (D used for nothing else)
+         ->  L = [None] * N ; ... L[k] = v ...
+    A dict that is only filled by key and then read out once in index order is the pre-sized list filled by index."""
+    changed = False
+    body = node.body
+    for pos, st in enumerate(body):
+        if not (isinstance(st, ast.Assign) and len(st.targets) == 1 and isinstance(st.targets[0], ast.Name) and isinstance(st.value, ast.ListComp)):
+            continue
+        lc = st.value
+        if not (len(lc.generators) == 1 and not lc.generators[0].ifs and isinstance(lc.generators[0].target, ast.Name)
+                and isinstance(lc.generators[0].iter, ast.Call) and isinstance(lc.generators[0].iter.func, ast.Name)
+                and lc.generators[0].iter.func.id == "range" and len(lc.generators[0].iter.args) == 1 and not lc.generators[0].iter.keywords):
+            continue
+        i_name = lc.generators[0].target.id
+        e = lc.elt
+        if not (isinstance(e, ast.Call) and isinstance(e.func, ast.Attribute) and e.func.attr == "get" and isinstance(e.func.value, ast.Name)
+                and len(e.args) == 1 and isinstance(e.args[0], ast.Name) and e.args[0].id == i_name and not e.keywords):
+            continue
+        d_name, l_name = e.func.value.id, st.targets[0].id
+        uses = [n for n in ast.walk(node) if isinstance(n, ast.Name) and n.id == d_name]
+        init = [x for x in body[:pos] if isinstance(x, ast.Assign) and len(x.targets) == 1 and isinstance(x.targets[0], ast.Name)
+                and x.targets[0].id == d_name and isinstance(x.value, ast.Dict) and not x.value.keys]
+        if len(init) != 1:
+            continue
+        stores = [n for n in ast.walk(node) if isinstance(n, ast.Subscript) and isinstance(n.ctx, ast.Store) and isinstance(n.value, ast.Name)
+                  and n.value.id == d_name]
+        if len(uses) != 2 + len(stores) or not stores:
+            continue
+        if any(isinstance(n, ast.Name) and n.id == l_name for x in body[:pos] for n in ast.walk(x)):
+            continue
+        n_expr = lc.generators[0].iter.args[0]
+        if any(isinstance(n, ast.Name) and isinstance(n.ctx, ast.Store) and n.id in {y.id for y in ast.walk(n_expr) if isinstance(y, ast.Name)}
+               for x in body for n in ast.walk(x)):
+            continue
+        init[0].targets[0].id = l_name
+        init[0].value = ast.BinOp(left=ast.List(elts=[ast.Constant(value=None)], ctx=ast.Load()), op=ast.Mult(), right=n_expr)
+        for sub in stores:
+            sub.value.id = l_name
+        body.pop(pos)
+        ast.fix_missing_locations(node)
+        changed = True
+        break
+    return changed
+
+
 def canonicalise(model, f) -> bool:
     """Rewrite f.node in place (a copy); returns True when something changed."""
     tables = Tables(model, f)
@@ -666,6 +712,8 @@ def canonicalise(model, f) -> bool:
     # statement level first on the original expressions (so `a, b = T[k]` is still a subscript), then expressions
     st = _Stmt(tables)
     node.body = st.block(node.body)
+    if _densified_dict(node):
+        st.changed = True
     node = ex.visit(node)
     # the expression pass may have produced `if k == .. or k == ..:` around a chain: fold it
     if ex.changed:
